@@ -32,6 +32,7 @@ from hypothesis import strategies as st
 
 from lv.core.runner import Prop
 from lv.core.runner import Result
+from lv.core.runner import digest
 from lv.core.runner import exc_bucket
 from lv.harness.envs import make_env
 from lv.harness.envs import run_coro
@@ -515,7 +516,8 @@ class C08(Prop):
         "be rejected (labelled dup-standalone); inside a chain they must raise TemplateInheritanceError",
         "a missing parent may raise TemplateNotFoundError or TemplateInheritanceError",
         "two block names nested in each other in opposite order in two templates and closed through block.super "
-        "describe an infinite page; any LiquidError is accepted there (labelled recursive-resolution), output is not",
+        "describe an infinite page; any LiquidError is accepted there (labelled recursive-resolution), output is not; "
+        "a RecursionError there is only labelled (C02's subject) and only one in eight such cases is executed",
         "block bodies only read render arguments and their own for-loop variables; nested blocks never read a loop "
         "variable of an enclosing for tag (scoping of blocks is C07's subject)",
         "a chain entered through include/render is expected to resolve against its own definitions only",
@@ -525,7 +527,7 @@ class C08(Prop):
     batch = 300
 
     def n_random(self, tier: str) -> int:
-        return 6000 if tier == "quick" else 200000
+        return 5000 if tier == "quick" else 200000
 
     def budget_s(self, tier: str) -> float:
         return 240 if tier == "quick" else 3000
@@ -582,6 +584,13 @@ class C08(Prop):
 
         kind, want, info = resolve(templates, entry, data)
         srcs = sources(templates)
+        if kind == "err" and want == "recursive" and digest(case) % 8:
+            # an infinite page: nothing but "no page comes out" is demanded, and the deep recursion is the most
+            # expensive thing to run, so only one in eight of these is executed
+            res.labels.append("expect:err-recursive")
+            res.labels.append("recursive-resolution:not-run")
+            res.evaluations = 0
+            return res
 
         got: dict[str, tuple[str, Any]] = {}
         for lk, loader_cls in (("dict", DictLoader), ("caching", CachingDictLoader)):
